@@ -128,6 +128,61 @@ Theorem C02_seed_concat_alias_refuted : exists r1 a1 r2 a2,
   (r1, a1) <> (r2, a2) /\ manager_seed r1 (Some a1) = manager_seed r2 (Some a2).
 Proof. exists [49], [50; 51], [49; 50], [51]. split; [discriminate | reflexivity]. Qed.
 
+(* ---------------------------------------------------------------------------------------------------------------
+   the manager layer (RandomnessManager): a registry of decision points sharing ONE seed string and ONE index map.
+   [mk dp ca seed] is the block key built from the decision point, the call's (clock, additional key) and the seed;
+   theorems hold for every [mk] and [block] and for ALL request histories.
+   --------------------------------------------------------------------------------------------------------------- *)
+Section C02_manager.
+  Variable K : Type.
+  Variable C : Type.
+  Variable mk : Z -> C -> str -> K.
+  Variable block : K -> Z -> Z.
+  Notation mstep := (mstep K C mk block).
+  Notation mrun := (mrun K C mk block).
+  Notation mgr_draw := (mgr_draw K C mk block).
+
+  (* each decision point has at most one stream, whatever was requested *)
+  Theorem C02_mgr_one_stream_per_decision_point : forall rs g,
+    NoDup (map fst (g_dps g)) -> NoDup (map fst (g_dps (mrun g rs))).
+  Proof. exact (mrun_nodup K C mk block). Qed.
+
+  (* a second request for a decision point is refused and changes nothing; a first one hands out the manager's seed *)
+  Theorem C02_mgr_duplicate_rejected : forall g dp c,
+    (forall c', zassoc dp (g_dps g) = Some c -> mstep g (RGet dp c') = (g, ORefused ERandomness)) /\
+    (zassoc dp (g_dps g) = None -> snd (mstep g (RGet dp c)) = OStream (g_seed g) /\
+                                   zassoc dp (g_dps (fst (mstep g (RGet dp c)))) = Some c).
+  Proof.
+    intros g dp c. split.
+    - intros c' H. exact (mstep_duplicate K C mk block g dp c c' H).
+    - intros H. rewrite (mstep_new K C mk block g dp c H). simpl. now rewrite Z.eqb_refl.
+  Qed.
+
+  (* all streams of a manager share the seed (and, by construction of [mgr_draw], the index map), for ever; a stream
+     keeps the kind it was created with *)
+  Theorem C02_mgr_shared_seed : forall rs g,
+    g_seed (mrun g rs) = g_seed g /\
+    forall dp c, zassoc dp (g_dps g) = Some c -> zassoc dp (g_dps (mrun g rs)) = Some c.
+  Proof. intros rs g. split; [apply mrun_seed | intros dp c; apply mrun_flag_stable]. Qed.
+
+  (* a stream's draws do not depend on which other streams exist ... *)
+  Theorem C02_mgr_other_streams_irrelevant : forall g h1 h2 dp ca idx, g_dps g = [] -> zassoc dp h1 = zassoc dp h2 ->
+    mgr_draw (mrun g (creations C h1)) dp ca idx = mgr_draw (mrun g (creations C h2)) dp ca idx.
+  Proof. exact (creations_irrelevant K C mk block). Qed.
+
+  (* ... nor on the order in which the streams were created *)
+  Theorem C02_mgr_creation_order_irrelevant : forall g h1 h2 dp ca idx, g_dps g = [] -> NoDup (map fst h1) ->
+    Permutation h1 h2 ->
+    mgr_draw (mrun g (creations C h1)) dp ca idx = mgr_draw (mrun g (creations C h2)) dp ca idx.
+  Proof. exact (creation_order_irrelevant K C mk block). Qed.
+
+  (* ... nor on anything that happens later: creations, refused duplicates, draws on any stream, registrations that
+     move no registered simulant *)
+  Theorem C02_mgr_history_invariant : forall g rs dp ca idx ds, stable_history K (g_map g) (map_ops K C rs) ->
+    mgr_draw g dp ca idx = Ok ds -> mgr_draw (mrun g rs) dp ca idx = Ok ds.
+  Proof. exact (mgr_history_invariant K C mk block). Qed.
+End C02_manager.
+
 (* ---- non-vacuity ---- *)
 Definition demo_block (k p : Z) : Z := (k * 1000 + p * 7 + 3) mod two53.
 Example demo_crn :
@@ -155,6 +210,16 @@ Example demo_seed_guard :
   manager_seed [49; 50] (Some [51]) = [49; 50; 51] /\ manager_seed [57; 57] None = [57; 57] /\
   manager_seed [49; 50] (Some [51]) <> manager_seed [57; 57] (Some [51]).
 Proof. repeat split. discriminate. Qed.
+Example demo_manager :
+  let g0 := {| g_seed := [49; 50; 51]; g_map := NoCRN 50; g_dps := [] |} in
+  let mk := fun (dp : Z) (ca : Z) (_ : str) => dp * 100 + ca in
+  let g := mrun Z Z mk demo_block g0 [RGet 7 false; RGet 8 true; RGet 7 true; RDraw 7 1 [3]; RGet 9 false] in
+  map fst (g_dps g) = [9; 8; 7] /\ zassoc 7 (g_dps g) = Some false /\
+  snd (mstep Z Z mk demo_block g (RGet 8 false)) = ORefused ERandomness /\
+  mgr_draw Z Z mk demo_block g 7 1 [3; 49] = Ok [701024; 701346] /\
+  mgr_draw Z Z mk demo_block g 8 1 [3; 49] = Ok [801003; 801010] /\
+  mgr_draw Z Z mk demo_block g 5 1 [3] = Rejected EOther.
+Proof. vm_compute. repeat split. Qed.
 Example demo_single_change :
   differ_in_one {| sk_key := [97]; sk_clock := [99]; sk_addl := [78]; sk_seed := [48] |}
                 {| sk_key := [97]; sk_clock := [99]; sk_addl := [49]; sk_seed := [48] |} = true.
@@ -177,3 +242,9 @@ Print Assumptions C02_seedkey_alias_refuted.
 Print Assumptions C02_manager_seed_injective_guarded.
 Print Assumptions C02_manager_seed_alias_is_prefix.
 Print Assumptions C02_seed_concat_alias_refuted.
+Print Assumptions C02_mgr_one_stream_per_decision_point.
+Print Assumptions C02_mgr_duplicate_rejected.
+Print Assumptions C02_mgr_shared_seed.
+Print Assumptions C02_mgr_other_streams_irrelevant.
+Print Assumptions C02_mgr_creation_order_irrelevant.
+Print Assumptions C02_mgr_history_invariant.
